@@ -29,14 +29,18 @@ func RunFree(s Sched, variant string, still time.Duration) Trace {
 	c.build()
 	tr.Outs = c.outName
 	restless := false // things kept happening until the deadline (or more than is judged): no window is taken to be at rest
+	cut := false      // more happened than is judged: what follows the judged prefix is dropped, in this window and in the later ones
 	take := func() []Ev {
 		c.mu.Lock()
 		defer c.mu.Unlock()
 		d := append([]Ev{}, c.done...)
 		c.done = c.done[:0]
-		if len(d) > 8000 {
-			d = d[:8000] // a stage that never stops producing: a prefix of what happened is judged, nothing is taken to be at rest
-			restless = true
+		if cut {
+			return []Ev{}
+		}
+		if len(d) > 14000 {
+			d = d[:14000] // a stage that never stops producing: a prefix of what happened is judged, nothing is taken to be at rest
+			restless, cut = true, true
 		}
 		return d
 	}
@@ -77,7 +81,7 @@ func RunFree(s Sched, variant string, still time.Duration) Trace {
 
 	sub := []Cmd{}
 	for _, o := range c.outName {
-		cmd := Cmd{C: "recvall", O: o, D: 1 << 30}
+		cmd := Cmd{C: "recvall", O: o, D: 3000} // (a generator never stops by itself: its consumers do, after 3000 values)
 		c.issue(&cmd)
 		sub = append(sub, cmd)
 	}
